@@ -22,7 +22,7 @@ from lib import gz, gtext, glist, gbool, gopt
 
 THEOREMS = ['C01_xml_rt', 'C01_xml_rt_spyne']                                   # Props/C01.v (shared model Wire/Xml.v)
 THEOREMS_X = ['C01_xmlx_rt', 'C01_leaf_sound', 'C01_xmlx_rt_spyne']             # Props/C01_x.v (C01/XmlX.v)
-THEOREMS_CALL = ['C01_call_fidelity', 'C01_call_fidelity_spyne', 'C01_call_documents']                # Props/C01_call.v (C01/Call.v)
+THEOREMS_CALL = ['C01_call_fidelity', 'C01_call_fidelity_spyne', 'C01_call_documents', 'C01_call_named_args']                # Props/C01_call.v (C01/Call.v)
 FUEL = 40
 XSI = X.XSI
 
@@ -504,12 +504,13 @@ def corr_calls(check, tier):
                            % FUEL, cases,
                            show='(fun c : proto * vmode * bool * xnode * ufun * rsp => let \'(p, v, sv, doc, f, o) := c in server spyne_leaf p v '
                                 '(fun _ => sv) UU SV %d f doc)' % FUEL)
-            lib.correspond(check, 'call_client_request', imports, 'proto * vmode * nat * option (list val) * list val * xnode',
-                           '(fun c => let \'(p, v, i, hv, args, t) := c in match nth_error (s_methods SV) i with Some m => '
-                           'match client_request spyne_leaf p UU SV %d i m hv args with Ok e => xnode_eqb (wire e) t | _ => false end '
+            lib.correspond(check, 'call_client_request', imports, 'proto * vmode * nat * option (list val) * list val * list (text * val) * xnode',
+                           '(fun c => let \'(p, v, i, hv, pos, kw, t) := c in match nth_error (s_methods SV) i with Some m => '
+                           'match client_request_named spyne_leaf p UU SV %d i m hv pos kw with Ok e => xnode_eqb (wire e) t | _ => false end '
                            '| None => false end)' % FUEL, req_cases,
-                           show='(fun c : proto * vmode * nat * option (list val) * list val * xnode => let \'(p, v, i, hv, args, t) := c in '
-                                'match nth_error (s_methods SV) i with Some m => client_request spyne_leaf p UU SV %d i m hv args '
+                           show='(fun c : proto * vmode * nat * option (list val) * list val * list (text * val) * xnode => '
+                                'let \'(p, v, i, hv, pos, kw, t) := c in '
+                                'match nth_error (s_methods SV) i with Some m => client_request_named spyne_leaf p UU SV %d i m hv pos kw '
                                 '| None => Crash OtherExn end)' % FUEL)
             lib.correspond(check, 'call_client_response', imports, 'proto * vmode * nat * xnode * out (val * option (list val))',
                            '(fun c => let \'(p, v, i, t, o) := c in match nth_error (s_methods SV) i with Some m => '
@@ -521,6 +522,25 @@ def corr_calls(check, tier):
         if wi == 0:
             check.sample({'service': X.jsonable(w.svc)})
     corr_parser(check, pdocs)
+
+
+def call_shape(rng, desc, m, call):
+    """how the client passes the arguments of a call: a sequential prefix, the rest name-based (None ones possibly left
+    out), and now and then a name-based argument on top of a sequential one (which it replaces, whatever its value:
+    0, False, '' and [] are values).  -> (neutral sequential list, [(name, neutral value)])"""
+    if call.get('shape'):
+        return list(call['shape'][0]), [(k, a) for k, a in call['shape'][1]]
+    args = list(call['args'])
+    n = len(args)
+    k = rng.choice([n, n, rng.randint(0, n)])
+    pos = args[:k]
+    kw = [(m['params'][j]['name'], args[j]) for j in range(k, n) if args[j] != ('none',) or rng.random() < 0.5]
+    if k and rng.random() < 0.3:
+        j = rng.randrange(k)
+        pos[j] = X.gen_field_value(rng, desc, m['params'][j], rng.randint(1, 2))
+        kw.append((m['params'][j]['name'], args[j]))
+    rng.shuffle(kw)
+    return pos, kw
 
 
 def client_corr_case(check, w, app, sc, plan, prot, val, mi, m, call, req_cases, resp_cases):
@@ -536,8 +556,9 @@ def client_corr_case(check, w, app, sc, plan, prot, val, mi, m, call, req_cases,
     sc.set_options(out_header=hdr)
     proc = getattr(sc.service, m['name'])
     from spyne.model.fault import Fault
+    pos, kw = call_shape(check.rng, desc, m, call)
     try:
-        r = ('ok', proc(*[X.to_native(desc, classes, a) for a in call['args']]))
+        r = ('ok', proc(*[X.to_native(desc, classes, a) for a in pos], **dict((k, X.to_native(desc, classes, a)) for k, a in kw)))
     except Fault as e:
         r = ('vfault',) if e.faultcode == 'Client.ValidationError' else ('crash', 'OtherExn', 'Fault:' + str(e.faultcode))
     except Exception as e:
@@ -548,8 +569,9 @@ def client_corr_case(check, w, app, sc, plan, prot, val, mi, m, call, req_cases,
         return
     g_hv = gopt(call['in_header'] if hdr is not None else None, lambda hh: glist([X.g_val(v) for v in hh]))
     pv = '%s, %s, ' % (G_PROTO[prot], G_VMODE[val])
-    req_cases.append(('(%s%d%%nat, %s, %s, %s)' % (pv, mi, g_hv, glist([X.g_val(a) for a in call['args']]), X.g_xml(etree.fromstring(sent))),
-                      '%s/%s %s args %r hdr %r -> %s' % (prot, val, m['name'], call['args'], call['in_header'], sent.decode()[:400])))
+    req_cases.append(('(%s%d%%nat, %s, %s, %s, %s)' % (pv, mi, g_hv, glist([X.g_val(a) for a in pos]),
+                                                       glist(['(%s, %s)' % (X.gtext(k), X.g_val(a)) for k, a in kw]), X.g_xml(etree.fromstring(sent))),
+                      '%s/%s %s(*%r, **%r) hdr %r -> %s' % (prot, val, m['name'], pos, kw, call['in_header'], sent.decode()[:400])))
     check.count(('client_req', prot, val, sent))
     received = getattr(proc, 'received', None)
     if received is None or not received.strip():
@@ -1310,10 +1332,9 @@ def spyne_client_case(check, w, app, sc, plan, prot, val, m, call):
             hdr = [X.to_native(desc, classes, v) for v in call['in_header']]
         sc.set_options(out_header=hdr)
         proc = getattr(sc.service, m['name'])
-        native_args = []
-        for p, a in zip(m['params'], call['args']):
-            native_args.append(X.to_native(desc, classes, a))
-        r = proc(*native_args)
+        pos, kw = call_shape(check.rng, desc, m, call)
+        call = dict(call, shape=[pos, [list(x) for x in kw]])          # (the replay repeats exactly this call)
+        r = proc(*[X.to_native(desc, classes, a) for a in pos], **dict((k, X.to_native(desc, classes, a)) for k, a in kw))
     except Exception as e:
         check.fail(call_key('spyne-client-raised', prot, val, m, call, desc),
                    '%s validator=%s %s [%s]: the Spyne client could not complete the call with arguments %r: %r (sent %s)' % (
